@@ -1,5 +1,6 @@
 import Rdpgw.Model.Cookie
 import Rdpgw.Model.Tunnel
+import Rdpgw.Generated.Tokens
 
 /-!
 # C02 — access cookies are accepted only if gateway-minted, unexpired and IdP-valid
@@ -114,5 +115,27 @@ theorem reject_status (cfg : Cfg) (env : Env) (hc : cfg.hasCookieCheck = true) (
 example : (check { mint 1000 [104] [49] (.ok [117]) with exp := none } 999999).isSome = true := by decide
 example : check (mint 1000 [104] [49] (.ok [117])) 1360 = some ⟨[104], [49], [117]⟩ := by decide
 example : check (mint 1000 [104] [49] (.ok [117])) 1361 = none := by decide
+
+/-! ### Facts read off `cmd/rdpgw/security` (regenerated from the source on every run)
+
+Every fact the translator finds about `GeneratePAAToken` and `CheckPAACookie` is the one the model
+implements: the lifetime, the issuer written and demanded, the parser and its algorithm allow-list,
+the signing algorithm. -/
+
+open Rdpgw.Generated in
+theorem facts_paa_lifetime :
+    ∀ e ∈ Tokens.expiries, e.1 = "GeneratePAAToken" → e.2 = Cookie.lifetime * 1000000000 := by decide
+
+open Rdpgw.Generated in
+theorem facts_paa_issuer :
+    ∀ e ∈ Tokens.issuers, (e.1 = "GeneratePAAToken" ∨ e.1 = "CheckPAACookie") → e.2 = Cookie.issuer := by decide
+
+open Rdpgw.Generated in
+theorem facts_paa_parser :
+    ∀ e ∈ Tokens.parsers, e.1 = "CheckPAACookie" → e.2.1 = "ParseSigned" ∧ e.2.2 = ["HS256"] := by decide
+
+open Rdpgw.Generated in
+theorem facts_paa_alg :
+    ∀ e ∈ Tokens.mintAlgs, e.1 = "GeneratePAAToken" → e.2 = "HS256" := by decide
 
 end Rdpgw.C02
